@@ -196,6 +196,22 @@ CHECKS.update({
    design_ref='DESIGN.md 4 (C14/C15)'),
 })
 
+CHECKS.update({
+ 'C05': dict(
+   category='model_checking', engine='symx+sympeg', note=PTRUST,
+   technique='path-forking symbolic execution (symx) of the real get_children with uninterpreted selector / should_follow predicates (one symbolic boolean per object) on solver-enumerated witness models (z3 AllSAT over the live parser model); per-path comparison with a reference traversal derived from the grammar AST',
+   text=("For every model obtained from one witness per accepted character-class string (n <= 7 / 10) of the recursive / abstract-containment / back-reference grammars, and a scenario "
+         "where the same user classes serve two metamodels, every valuation of the selector and should_follow predicates that the traversal can observe (and children_first) is one path; "
+         "the returned list must equal the reference traversal. get_children_of_type, get_parent_of_type, get_model and parent links are checked on the same models."),
+   design_ref='DESIGN.md 4 (C05)'),
+ 'C06': dict(
+   category='exploration', engine='sympeg+refpeg',
+   technique='solver-enumerated inputs (z3 AllSAT over character classes of the live parser model, refined by newline / CR / tab) replayed on the real textX (strings and files) against reference spans from the reference derivation; verdict by replay',
+   text=("Witness replay: for every accepted character-class string (n <= 6 / 8, all whitespace / comment layouts of that length) each object's _tx_position/_tx_position_end must delimit "
+         "its matched text, children nest inside parents, list siblings are ordered and disjoint, and get_location must give the independently computed line/col, nchar and file name."),
+   design_ref='DESIGN.md 4 (C06)'),
+})
+
 NA = {
  'C16': "history quantifier over whole-program API calls; no data dimension to make symbolic — only enumeration of concrete call sequences would remain (DESIGN.md 5)",
  'C17': "decided by file-system I/O, glob, abspath and repository objects handed between nested real loads; only enumeration of import graphs would remain (DESIGN.md 5)",
